@@ -476,6 +476,22 @@ def apply(an, st, t, args, dkey, dty, sid):
         if lt is not None and lt[0] == "s":
             st.diffs[(psid, lt[1])] = lt[2]
         return HANDLED
+    # ---- slice::binary_search*: Ok(i) => i < len, Err(i) => i <= len (the closure argument only compares) -------------------------
+    if m(r"core::slice::<impl \[T\]>::binary_search(_by|_by_key)?$"):
+        st.kill_prefix(dkey)
+        lt = _len_of(an, st, t, 0, args, sid)
+        hi = st.itv_term(lt)[1] if lt is not None else (1 << 63) - 1
+        if hi == INF:
+            hi = (1 << 63) - 1
+        oks, ers = sid + "#ok", sid + "#err"
+        st.syms[oks] = (0, max(hi - 1, 0))
+        st.syms[ers] = (0, hi)
+        st.vals["(%s as Ok).0" % dkey] = V(ty="usize", sym=(oks, 0))
+        st.vals["(%s as Err).0" % dkey] = V(ty="usize", sym=(ers, 0))
+        if lt is not None and lt[0] == "s":
+            st.diffs[(oks, lt[1])] = lt[2] - 1
+            st.diffs[(ers, lt[1])] = lt[2]
+        return HANDLED
     # ---- operator traits on (references to) primitive integers ------------------------------------------------------------------
     ot = op_trait_operands(an, st, t, args, sid)
     if ot is not None:
